@@ -71,8 +71,8 @@ func VerifRun_C08e() {
 	files := []string{a, b}
 	// versions of the two files (valid programs with different diagnostics, and one with a syntax error)
 	// (the fourth version of a is the second one below two blank lines, with a trailing blank: the same
-	// diagnostics on other lines)
-	versA := []string{"x = 1\n", "y = 1\nlocal u = 2\n", "x = \n", "\n\ny = 1\nlocal u = 2\n \n"}
+	// diagnostics on other lines; the fifth is the empty file)
+	versA := []string{"x = 1\n", "y = 1\nlocal u = 2\n", "x = \n", "\n\ny = 1\nlocal u = 2\n \n", ""}
 	// (the third version of b reads a name nobody defines: going from "y" to "z" changes a diagnostic only in its text)
 	versB := []string{"local r = x\nq = r\n", "local r = y\nq = r\n", "local r = z\nq = r\n"}
 	cur := []string{versA[0], versB[0]}
@@ -95,7 +95,7 @@ func VerifRun_C08e() {
 		case 0: // the user types: full-text didChange to another version (may be syntactically broken)
 			var txt string
 			if fi == 0 {
-				txt = versA[verifConcretize(verifRange("ver", 0, 3))]
+				txt = versA[verifConcretize(verifRange("ver", 0, 4))]
 			} else {
 				txt = versB[verifConcretize(verifRange("ver", 0, 2))]
 			}
@@ -118,7 +118,7 @@ func VerifRun_C08e() {
 			}
 			var txt string
 			if fi == 0 {
-				txt = versA[verifConcretize(verifRange("ver", 0, 3))]
+				txt = versA[verifConcretize(verifRange("ver", 0, 4))]
 			} else {
 				txt = versB[verifConcretize(verifRange("ver", 0, 2))]
 			}
